@@ -1,6 +1,7 @@
 package main
 
 import (
+	"bytes"
 	"crypto/rand"
 	"math/big"
 	"time"
@@ -270,6 +271,54 @@ func init() {
 						}
 						out.Add("walker", Case{Coq: fmt.Sprintf("(%s, %s)", cqBytes(string(st)), cqZ(int64(obs))), Tag: fmt.Sprint(obs), Desc: map[string]interface{}{"bytes": hexs(st), "observed": obs}})
 					}
+				}
+			}
+		}
+		// (1b) explicitText in the other string types the parser lets through (BMPString, VisibleString, IA5String,
+		// UniversalString): for BMPString every sequence of up to three code units over an alphabet with zero low octets,
+		// zero high octets, the NUL terminator, surrogates and noncharacters, with and without a dangling octet
+		{
+			units := [][]byte{{0x00, 0x41}, {0x4e, 0x00}, {0x01, 0x00}, {0x00, 0x00}, {0xd8, 0x00}, {0xff, 0xff}, {0x00, 0x0a}, {0x00, 0x9f}}
+			var texts [][]byte
+			var genU func(prefix []byte, n int)
+			genU = func(prefix []byte, n int) {
+				texts = append(texts, append([]byte{}, prefix...))
+				if n == 0 {
+					return
+				}
+				for _, u := range units {
+					genU(append(append([]byte{}, prefix...), u...), n-1)
+				}
+			}
+			depth := 2
+			if tier() == "thorough" {
+				depth = 3
+			}
+			genU(nil, depth)
+			for i := 0; i < 40; i++ {
+				var b []byte
+				for j := 0; j < 3+rng.Intn(100); j++ {
+					b = append(b, units[rng.Intn(len(units))]...)
+				}
+				if i%8 == 7 {
+					b = append(b, 0x41)
+				}
+				texts = append(texts, b)
+			}
+			texts = append(texts, []byte{0x41}, []byte{0x00}, []byte{0x4e, 0x00, 0x00}, bytes.Repeat([]byte{0x4e, 0x00}, 201), append(bytes.Repeat([]byte{0x00, 0x41}, 200), 0x00, 0x00))
+			for _, st := range texts {
+				for _, tag := range []byte{30, 26, 22, 28} {
+					if tag != 30 && len(st) > 6 && len(st) < 300 {
+						continue
+					}
+					t, ext := explicitTextCert(tag, st)
+					t.ExtraExtensions = append(t.ExtraExtensions, ext)
+					der, _, err := issue(t, nil)
+					if err != nil {
+						rejected++
+						continue
+					}
+					lintCert(der, fmt.Sprintf("explicitText of string type %d", tag), map[string]interface{}{"explicitText_hex": hexs(st), "string_tag": tag})
 				}
 			}
 		}
